@@ -21,6 +21,15 @@ def bodyOf : Kind → Val → Bytes
 
 theorem encTL_small (x : Nat) (h : x ≤ 0xfc) : encTL x = [x] := by simp [encTL, h]
 
+/-- the encoder only ever writes the four widths the decoder accepts -/
+theorem natLenOk_encNat (n : Nat) : natLenOk (encNat n).length = true := by
+  rw [encNat_length]; unfold natLen natLenOk; repeat' split
+  all_goals decide
+
+theorem readNatLoop_encNat (n : Nat) (rest : Bytes) :
+    readNatLoop (encNat n).length (encNat n ++ rest) = readUintLoop 8 (encNat n).length (encNat n ++ rest) := by
+  unfold readNatLoop; rw [natLenOk_encNat]; rfl
+
 theorem natLen_le (n : Nat) : natLen n ≤ 8 := by
   unfold natLen
   repeat' split
@@ -180,7 +189,7 @@ theorem readKind_prim (k : Kind) (v : Val) (hwf : wfKind k = true) (hk : k.multi
     have h8 : (encNat n).length < 2 ^ 63 := by rw [encNat_length]; have := natLen_le n; omega
     refine ⟨0, ?_⟩
     simp only [readKind]
-    rw [readUintLoop_spec 8 _ rest h8, encNat_dec n hv, Nat.mod_eq_of_lt (by omega)]
+    rw [readNatLoop_encNat, readUintLoop_spec 8 _ rest h8, encNat_dec n hv, Nat.mod_eq_of_lt (by omega)]
   · -- fixedUint
     rename_i w o n
     simp [wfKind] at hwf
@@ -209,7 +218,7 @@ theorem readKind_prim (k : Kind) (v : Val) (hwf : wfKind k = true) (hk : k.multi
       rw [encNat_length]; have := natLen_le (timeMs ns); omega
     refine ⟨0 + 0, ?_⟩
     simp only [readKind]
-    rw [readUintLoop_spec 8 _ rest h8, encNat_dec _ (timeMs_lt ns hv.2),
+    rw [readNatLoop_encNat, readUintLoop_spec 8 _ rest h8, encNat_dec _ (timeMs_lt ns hv.2),
       Nat.mod_eq_of_lt (by have := timeMs_lt ns hv.2; omega)]
     simp only [Res.bind, timeMs_back ns hv.1 hv.2]
   · -- bool
